@@ -85,7 +85,10 @@ type Invalid struct {
 	Marker  string `json:"marker"`
 	After   bool   `json:"after"`
 	WantErr bool   `json:"want_error"` // a parse error is reported (else the dump just ends)
-	Kind    string `json:"kind"`
+	// NoSnapshot: the damage is in the lines that open the dump, so no snapshot
+	// is produced for it; the call reports the error and hands the stop line back.
+	NoSnapshot bool   `json:"no_snapshot,omitempty"`
+	Kind       string `json:"kind"`
 }
 
 // MalformPrecise damages one dump so that the stop line is known. Returns nil
@@ -103,6 +106,13 @@ func MalformPrecise(r *core.Rng, d *Doc, tag int) *Invalid {
 	ii := idx[r.Intn(len(idx))]
 	it := &d.Items[ii]
 	if it.Kind == "race" {
+		if r.Chance(0.25) {
+			// the first operation of a report is "Read at"/"Write at"; a report that
+			// starts with "Previous …" is rejected at that line
+			m := fmt.Sprintf("Previous read at 0x00c0%08x by goroutine %d:", tag, it.Ops[0].ID)
+			it.Ops[0].Header = m
+			return &Invalid{Item: ii, Marker: m, WantErr: true, NoSnapshot: true, Kind: "race: report starting with a 'Previous' operation"}
+		}
 		if r.Chance(0.5) {
 			m := fmt.Sprintf("Previous write at 0x00c0%08x by goroutine %d:", tag, it.Ops[0].ID)
 			it.Creates = append(it.Creates, RaceSec{ID: -1, Header: m, Frames: []Frame{{Func: "  main.f()", File: "      /x/y.go:1 +0x1"}}})
